@@ -11,6 +11,14 @@ fn paren(s: &str) -> String {
     }
 }
 
+fn strip_parens(e: &Expr) -> &Expr {
+    match e {
+        Expr::Paren(p) => strip_parens(&p.expr),
+        Expr::Group(p) => strip_parens(&p.expr),
+        _ => e,
+    }
+}
+
 pub fn app(f: &str, args: &[String]) -> String {
     if f.is_empty() && args.len() == 1 {
         // newtype over its only field
@@ -90,6 +98,9 @@ impl<'a> Tr<'a> {
             Expr::Cast(c) => {
                 let target = self.ty(&c.ty)?;
                 let v = self.pure(&c.expr, env, None)?;
+                if matches!(v.ty, Ty::Int(None)) && !matches!(strip_parens(&c.expr), Expr::Lit(_) | Expr::Unary(_)) {
+                    return Err(unsupported(e, "cast of an integer whose type is not known (a local initialised with an unsuffixed literal): annotate its type"));
+                }
                 match (&v.ty, &target) {
                     (Ty::Int(f), Ty::Int(Some(t))) => {
                         let f = f.unwrap_or(IntTy::I32);
@@ -242,7 +253,7 @@ impl<'a> Tr<'a> {
         let need = |what: &str| -> R<IntTy> {
             match ty {
                 Ty::Int(Some(t)) => Ok(*t),
-                _ => Err(unsupported(at, &format!("cannot infer the integer type of the operands of `{}` (needed to choose quot/div); annotate a type", what))),
+                _ => Err(unsupported(at, &format!("cannot infer the integer type of the operands of `{}` (its Coq meaning depends on signedness or width); annotate a type", what))),
             }
         };
         Ok(match op {
@@ -266,7 +277,8 @@ impl<'a> Tr<'a> {
             BinOp::BitAnd(_) | BinOp::BitAndAssign(_) => format!("(Z.land {} {})", l.s, r.s),
             BinOp::BitOr(_) | BinOp::BitOrAssign(_) => format!("(Z.lor {} {})", l.s, r.s),
             BinOp::BitXor(_) | BinOp::BitXorAssign(_) => format!("(Z.lxor {} {})", l.s, r.s),
-            BinOp::Shl(_) | BinOp::ShlAssign(_) => format!("(Z.shiftl {} {})", l.s, r.s),
+            // Rust drops the bits shifted out of the type silently (no overflow check on the value): truncate like Rust
+            BinOp::Shl(_) | BinOp::ShlAssign(_) => format!("(Casts.shl_{} {} {})", need("<<")?.name(), l.s, r.s),
             BinOp::Shr(_) | BinOp::ShrAssign(_) => format!("(Z.shiftr {} {})", l.s, r.s),
             _ => return Err(unsupported(at, "binary operator on integers")),
         })
@@ -456,7 +468,11 @@ impl<'a> Tr<'a> {
                     }
                 }
             }
-            if let Some(c) = self.t.consts.iter().find(|c| c.key == *n) {
+            let local_const = self.t.file_defs.get(&self.cur_file).map(|d| d.consts.contains(n)).unwrap_or(false);
+            if local_const && !self.t.consts.iter().any(|c| c.key == *n && c.file == self.cur_file) {
+                return Err(unsupported(at, &format!("`{}`: this file defines its own constant of that name, which is not configured", n)));
+            }
+            if let Some(c) = self.t.consts.iter().find(|c| c.key == *n && (!local_const || c.file == self.cur_file)) {
                 let c = c.clone();
                 let ma = self.mvar_args(&c.mvars, env, at)?;
                 return Ok(Val { s: app(&c.coq, &ma), ty: c.ty.clone() });
